@@ -669,6 +669,24 @@ func (env *specEnv) call(e *Expr) specVal {
 		case "in64":
 			x := env.tr(args[0])
 			return ghost("(and (<= (- 9223372036854775808) "+x.T+") (<= "+x.T+" 9223372036854775807))", "Bool")
+		case "bytes_of_str":
+			x := env.tr(args[0])
+			if x.Sort != "Str" {
+				sfail("bytes_of_str of non-string")
+			}
+			return ghost("(bytes_of_str "+x.T+")", "Bytes")
+		case "str_of_bytes":
+			x := env.tr(args[0])
+			if x.Sort != "Bytes" {
+				sfail("str_of_bytes of non-Bytes")
+			}
+			return specVal{T: "(str_of_bytes " + x.T + ")", Typ: types.Typ[types.String], Sort: "Str"}
+		case "bcat":
+			a, b := env.tr(args[0]), env.tr(args[1])
+			if a.Sort != "Bytes" || b.Sort != "Bytes" {
+				sfail("bcat of non-Bytes")
+			}
+			return ghost("(bcat "+a.T+" "+b.T+")", "Bytes")
 		case "isNil":
 			x := env.tr(args[0])
 			return ghost(eq(x.T, env.nilOf(x).T), "Bool")
